@@ -863,9 +863,75 @@ func ser(c px.Context, o opts, cp caps, vs sx.Sexp) core.Result {
 		if f.reserved {
 			return fail(out, "reserved-key", "user hash with key __ptype is re-interpreted")
 		}
-		return fail(out, "roundtrip", "deserialized value differs from the original")
+		// name the kind of the first node that differs, so that unrelated defects get different classes
+		return fail(out, "roundtrip-"+diffKind(v, back), "deserialized value differs from the original")
 	}
 	return done(out, "ok")
+}
+
+func kindName(v px.Value) string {
+	switch v.(type) {
+	case *types.Array:
+		return "array"
+	case *types.Hash:
+		return "hash"
+	case *types.Sensitive:
+		return "sensitive"
+	case *types.Binary:
+		return "binary"
+	case *types.Regexp:
+		return "regexp"
+	case *types.SemVer:
+		return "semver"
+	case *types.SemVerRange:
+		return "semverrange"
+	case types.Timespan:
+		return "timespan"
+	case *types.Timestamp:
+		return "timestamp"
+	case *types.UriValue:
+		return "uri"
+	case *types.DefaultValue:
+		return "default"
+	case px.Type:
+		return "type"
+	case px.StringValue:
+		return "string"
+	}
+	return "scalar"
+}
+
+// diffKind descends into the first differing element of two values of the same shape
+func diffKind(a, b px.Value) string {
+	eq := func(x, y px.Value) bool { return px.Equals(normalize(x), normalize(y), nil) }
+	switch x := a.(type) {
+	case *types.Array:
+		if y, ok := b.(*types.Array); ok && x.Len() == y.Len() {
+			for i := 0; i < x.Len(); i++ {
+				if !eq(x.At(i), y.At(i)) {
+					return diffKind(x.At(i), y.At(i))
+				}
+			}
+		}
+	case *types.Hash:
+		if y, ok := b.(*types.Hash); ok && x.Len() == y.Len() {
+			xe, ye := x.Entries(), y.Entries()
+			for i := 0; i < x.Len(); i++ {
+				ex, ey := xe.At(i).(*types.HashEntry), ye.At(i).(*types.HashEntry)
+				if !eq(ex.Key(), ey.Key()) {
+					return diffKind(ex.Key(), ey.Key())
+				}
+				if !eq(ex.Value(), ey.Value()) {
+					return diffKind(ex.Value(), ey.Value())
+				}
+			}
+		}
+	case *types.Sensitive:
+		if y, ok := b.(*types.Sensitive); ok {
+			return diffKind(x.Unwrap(), y.Unwrap())
+		}
+	}
+	return kindName(a)
 }
 
 func oneLine(e interface{}) string {
